@@ -12,7 +12,7 @@ NULL = walk.NULL
 def facts(coll, *, compute=True):
     """-> dict(name, schema, np, div_known, div, result (raw table or err), lens)"""
     import dask
-    out = {"name": coll._name, "err": ""}
+    out = {"name": coll._name, "err": "", "plan": ""}
     try:
         out["schema"] = walk.schema_of(coll._meta)
         out["np"] = int(coll.npartitions)
@@ -26,6 +26,7 @@ def facts(coll, *, compute=True):
     if compute:
         try:
             low = coll.optimize().expr
+            out["plan"] = low._name
             parts = dask.get(low.__dask_graph__(), low.__dask_keys__())
             out["lens"] = [int(len(p)) if hasattr(p, "__len__") else 1 for p in parts]
             import pandas as pd
